@@ -110,6 +110,7 @@ type replSess struct {
 	sent     int64 // payload bytes (snapshot + stream) sent so far
 	dropAt   int64 // close the connection once `sent` reaches it; -1 = never
 	dropNow  bool
+	joinTail bool // the tail of the snapshot and the stream queued behind it go out in ONE write
 	eventIdx int
 }
 
@@ -338,7 +339,8 @@ func (src *Source) RefusePsyncs(n int, line string) {
 
 // QueueAfterFullresync: b becomes stream (bytes master_repl_offset+1 …) at the very moment the next
 // +FULLRESYNC is decided, i.e. it is already waiting when the snapshot payload has been written and
-// follows it on the wire without any pause (a master under write load).  One-shot.
+// follows it on the wire without any pause (a master under write load): the last part of the payload
+// and the queued stream are written to the connection in one Write.  One-shot.
 func (src *Source) QueueAfterFullresync(b []byte) {
 	src.mu.Lock()
 	src.afterFull = append([]byte{}, b...)
@@ -537,6 +539,7 @@ func cmdPsync(s *Server, c *conn, req *Req) (Reply, action) {
 			src.hist = append(src.hist, src.afterFull...)
 			src.mro += int64(len(src.afterFull))
 			src.afterFull = nil
+			sess.joinTail = true
 		}
 	}
 	ev.StartAt = sess.next
@@ -655,7 +658,39 @@ func (src *Source) serveReplica(c *conn, rd *bufio.Reader, wr *bufio.Writer, fir
 		if !write([]byte(fmt.Sprintf("$%d\r\n", len(sess.rdb)))) {
 			return
 		}
-		if !payload(sess.rdb) { // no trailing CRLF after the snapshot
+		rdb := sess.rdb
+		if sess.joinTail && sess.dropAt < 0 {
+			// The end of the payload is held back and handed to the connection together with the
+			// stream that is already queued behind it, in one Write: the replica cannot have read
+			// the last snapshot byte before stream bytes are in its socket, and the segment that
+			// carries the snapshot's end carries stream bytes too (the tail is not a multiple of
+			// any segment size).
+			const tail = 77881
+			cut := len(rdb) - tail
+			if cut < 0 {
+				cut = 0
+			}
+			if !payload(rdb[:cut]) {
+				return
+			}
+			src.mu.Lock()
+			joined := append([]byte{}, rdb[cut:]...)
+			if sess.next <= src.mro && sess.next >= src.histOff {
+				joined = append(joined, src.hist[sess.next-src.histOff:]...)
+			}
+			streamLen := int64(len(joined) - (len(rdb) - cut))
+			src.mu.Unlock()
+			if !write(joined) {
+				return
+			}
+			src.mu.Lock()
+			sess.sent += int64(len(joined))
+			src.sentAll += int64(len(joined))
+			src.mu.Unlock()
+			sess.next += streamLen
+			rdb = nil
+		}
+		if rdb != nil && !payload(rdb) { // no trailing CRLF after the snapshot
 			return
 		}
 	}
